@@ -338,3 +338,64 @@ def single_message_clause(hdr, result, ghost, E):
         return (S.eq(hdr.count, 1) & S.eq(S.ival(m.seq), S.upk('H', S.slice(ghost.msg, 0, 2)))
                 & S.eq(m.payload, S.slice(ghost.msg, 2, S.len(ghost.msg))) & S.eq(m.type.value, hdr.pkt_type.value))
     return False
+
+
+# ------------------------------------------------------------------------------------------ round trip of a TWO-message datagram
+@contract('connection.Packet.from_bytes', props=['C09'], variant='roundtrip-sealed-two-messages')
+class _:
+    """decoding a sealed datagram whose payload is Packet.create's layout for TWO messages (len, seq, type, bytes - twice; verified
+    layout: c09_codec), every payload length, type and seq: both messages come back with their own seq, type and bytes, in order.
+    The split loop is executed concretely here (count = 2); together with the 0/1-message round trips this covers each branch of
+    the decoder; more than two messages: the loop's safety contract only (stated in the manifest)."""
+    def setup(E):
+        declare_pending_message(E)
+        E.alloc()
+        h = make_header(E, 'hdr')
+        h.attrs['count'] = 2
+        parts, ms = [], []
+        for i in (0, 1):
+            p = E.bytes('p%d' % i, maxlen=65535)
+            seq = E.int('seq%d' % i, cls=SEQ, lo=1, hi=S.M)
+            typ = E.enum(PTYPE, 'typ%d' % i)
+            parts += [S.term(E.pack('>HHB', S.len(p), S.ival(seq), typ.value)), p.t]
+            ms.append((seq, typ, p))
+        msg = Sym(ops.mk_concat(parts), 'bytes')
+        h.attrs['length'] = S.len(msg)
+        E.assume(ops.blen(msg.t) <= 65535)
+        h20 = E.bytes('h20', length=20)
+        tail = E.bytes('tail')
+        key = E.bytes('key', length=16)
+        iv = ops.seq_slice_term(h20.t, 0, 12)
+        ct = libspec.ENC(key.t, iv, h20.t, msg.t)
+        ops.set_len_term(ct, ops.blen(msg.t) + 16)
+        E.assume(z3.And(libspec.DEC_OK(key.t, iv, h20.t, ct), libspec.DEC(key.t, iv, h20.t, ct) == msg.t))
+        E.ghost('sent', ms)
+        E.ghost('sealed', (key.t, iv, h20.t, ct, msg))
+        return dict(hdr=h, key=key, datagram=Sym(ops.mk_concat([h20.t, ct, tail.t]), 'bytes'))
+    # the AEAD model answers with the plaintext TERM it was sealed from when asked to open exactly that ciphertext under exactly
+    # that key, nonce and header (dec(enc(p)) = p of the same assumed library contract, applied as a rewrite so that the
+    # message boundaries stay visible to the slicing); any other call goes to the general model
+    hooks = {'model:crypto.decrypt_gcm': lambda ip, key, iv, aad, data: open_sealed(ip, key, iv, aad, data)}
+    ensures = {
+        'both-messages-come-back-in-order': lambda result, ghost, E: two_messages_clause(result, ghost, E),
+    }
+
+
+def open_sealed(ip, key, iv, aad, data):
+    k, i, a, c, msg = ip.state.ghost['sealed']
+    same = lambda x, t: z3.simplify(ops.term(x)).eq(z3.simplify(t))
+    if same(key, k) and same(iv, i) and same(aad, a) and same(data, c):
+        ip.state.events.append(('decrypt_gcm_ok', (key, iv, aad, data), {}))
+        return msg
+    return libspec._decrypt_gcm(ip, key, iv, aad, data)
+
+
+def two_messages_clause(result, ghost, E):
+    msgs = result.msgs
+    if not isinstance(msgs, PyList) or len(msgs.items) != 2:
+        return False
+    r = True
+    for i, (seq, typ, p) in enumerate(ghost.sent):
+        m = E.elem(msgs, i)
+        r = r & S.eq(S.ival(m.seq), S.ival(seq)) & S.eq(m.type.value, typ.value) & S.eq(m.payload, p)
+    return r
